@@ -1,7 +1,7 @@
 """C07 - rheology models return the exact, passive complex modulus of their law.
 
 Monitors: (value) M * J_published - 1 with a 40-digit reference compliance, passivity, |M| <= mu, high-frequency limit;
-(paths) scalar call == vectorize_frequency == vectorize_modulus_viscosity == find_rheology(name)() bit-for-bit, legacy
+(paths) scalar call == vectorize_frequency == vectorize_modulus_viscosity == find_rheology(name)() == re-configured live instance (change_args) bit-for-bit, legacy
 compliance functions within 64 eps; (omp) bit-identical digests of a fixed workload for OMP_NUM_THREADS in {1,2,4,16} and
 array lengths {0,1,2,3,17,1000,1e5}; (san) the array workload incl. mismatched lengths on a gcc ASan+UBSan OpenMP build.
 """
@@ -234,6 +234,19 @@ def eval_case(c):
             V('vectorize-frequency-differs-from-scalar', f'{model}: vectorize_frequency[{j}] = {out[j]!r} but scalar call gives {sc[j]!r} (w={ws[j]!r})', model=model, w=float(ws[j]), mu=mu0, eta=eta0, args=list(args))
         if not np.array_equal(sc.view(np.float64), sc2.view(np.float64)):
             V('find-rheology-instance-differs', f'{model}: instance from find_rheology gives different values', model=model)
+        if args:
+            # a live instance re-configured with change_args must behave exactly like a fresh instance built with those arguments
+            other = model_args(model, rng)
+            m3 = make(model, other)
+            _ = complex(m3(float(ws[0]), mu0, eta0))
+            m3.change_args(tuple(float(a) for a in args))
+            sc3 = np.array([complex(m3(float(w), mu0, eta0)) for w in ws])
+            out3 = np.empty(NB, dtype=np.complex128)
+            m3.vectorize_frequency(ws, mu0, eta0, out3)
+            cnt['path_comparisons'] += 2 * NB
+            if not (np.array_equal(sc3.view(np.float64), sc.view(np.float64)) and np.array_equal(out3.view(np.float64), sc.view(np.float64))):
+                j = int(np.argmax((sc3 != sc) | (out3 != sc)))
+                V('change-args-differs-from-fresh-instance', f'{model}: instance built with {tuple(other)} and then change_args({tuple(args)}) gives {sc3[j]!r} at w={ws[j]!r} but a fresh instance gives {sc[j]!r}', model=model, args=list(args), previous=list(other))
         mus = np.ascontiguousarray(10 ** rng.uniform(3, 13, NB))
         etas = np.ascontiguousarray(10 ** rng.uniform(0, 30, NB))
         w0 = 10 ** rng.uniform(-12, 2)
